@@ -388,7 +388,15 @@ func (cg *caseGen) lrGrammar() {
 	if wrap {
 		cg.cur = 0
 		var s *pvcase.Expr
-		switch cg.r.IntN(3) {
+		switch cg.r.IntN(5) {
+		case 3:
+			// the completed left-recursive rule is needed AGAIN at the same offset (answered from the leader's memo
+			// entry): S <- E s1 / E s2 / E
+			ch := cg.newChoice()
+			ch.Kids = []*pvcase.Expr{seqOf(refTo(topName), cg.nonEmptyLit()), seqOf(refTo(topName), cg.nonEmptyLit()), refTo(topName)}
+			s = ch
+		case 4: // &E E
+			s = seqOf(un(pvcase.KAnd, refTo(topName)), refTo(topName))
 		case 0:
 			s = seqOf(refTo(topName), un(pvcase.KNot, &pvcase.Expr{Kind: pvcase.KAny}))
 		case 1:
